@@ -102,6 +102,11 @@ class CtorEval:
                         env[q["name"]] = x
                 elif s["k"] in ("Semi", "Expr"):
                     x = strip(s["expr"])
+                    if x["k"] == "MethodCall" and x["method"] in ("extend", "push", "insert", "append", "for_each", "try_for_each", "extend_from_slice") \
+                            and strip(x["recv"])["k"] in ("Path", "MethodCall"):
+                        # a container being filled statement by statement (`vec.extend(src)`, `src.into_iter().for_each(|t| { set.insert(t); })`):
+                        # same treatment as the `for` loop form -- the function is a container conversion (see eval_fn)
+                        raise Unrecognised("container filled by a statement", x)
                     if x["k"] in ("Call", "MethodCall"):
                         self.effects.setdefault(owner, []).append((callee(x), [self.try_eval(a, env, depth, owner) for a in hir.call_args(x)]))
                     else:
